@@ -9,6 +9,7 @@
 //	import "time"        -> time  "<mod>/verifh/vrt/vtime"
 //	import "crypto/rand" -> rand  "<mod>/verifh/vrt/vcrand"
 //	import "math/rand"   -> rand  "<mod>/verifh/vrt/vmrand"
+//	import "sync/atomic" -> atomic "<mod>/verifh/vrt/vatomic"
 //	import "os"          -> os    "<mod>/verifh/vrt/vos"      (only in files listed with -vos)
 //	go f(a, b)           -> verifvrt.Go2(f, a, b)               (arguments still evaluated eagerly)
 //	ch <- v              -> verifvrt.Send(ch, v)                (outside select)
@@ -96,6 +97,7 @@ func instrument(path string, useVos bool) (bool, error) {
 		"time":        {"time", mod + "/vtime"},
 		"crypto/rand": {"rand", mod + "/vcrand"},
 		"math/rand":   {"rand", mod + "/vmrand"},
+		"sync/atomic": {"atomic", mod + "/vatomic"},
 	}
 	if useVos {
 		repl["os"] = [2]string{"os", mod + "/vos"}
